@@ -44,11 +44,25 @@ Theorem C13_partial_yaml : forall h, Compatible h = true -> obs_of_yaml (run_his
 Proof. exact partial_yaml. Qed.
 Print Assumptions C13_partial_yaml.
 
-(* the Fortran backend additionally needs that no extension module was imported before (never reset: see C13_ext_mods_persist) *)
-Theorem C13_partial_fortran : forall h m file, CachesClean h = true -> FortranClean h = true ->
+(* the Fortran backend: the guard is  fixed_D29 || FortranClean  (fixed_D29 = the switch for the repair D96, fixes/fix_D96.diff:
+   the extension module is named per generated source).  While the switch is false, history independence additionally needs that
+   no extension module was imported before (never reset: see C13_ext_mods_persist); with the switch true that guard is gone. *)
+Theorem C13_partial_fortran : forall h m file, CachesClean h = true -> (fixed_D29 || FortranClean h) = true ->
   obs_of_fortran (run_hist h G0) m file = obs_of_fortran G0 m file.
 Proof. exact partial_fortran. Qed.
 Print Assumptions C13_partial_fortran.
+
+(* the two halves, for ANY state g and either value of the switch *)
+Theorem C13_partial_fortran_before_fix : forall g m file, caches_clean g = true -> fortran_clean g = true ->
+  obs_of_fortran_k false g m file = obs_of_fortran_k false G0 m file.
+Proof. exact partial_fortran_before_fix. Qed.
+Print Assumptions C13_partial_fortran_before_fix.
+
+(* WITH the repair: no FortranClean, and not even the table of Python modules (D19): the frontend caches alone *)
+Theorem C13_partial_fortran_fixed : forall g m file, frontend_clean g = true ->
+  obs_of_fortran_k true g m file = obs_of_fortran_k true G0 m file.
+Proof. exact partial_fortran_fixed. Qed.
+Print Assumptions C13_partial_fortran_fixed.
 
 (* the guard is exactly  proj g = proj G0 *)
 Theorem C13_guard_is_projection : forall g, clean g = true <-> proj g = proj G0.
@@ -187,20 +201,29 @@ Proof.
 Qed.
 Print Assumptions C13_refuted_uclear_without_ir_before_fix.
 
-(* D29: a second Fortran model under the same file name gets the FIRST model's compiled routine — although every cache a
-   compilation reads is clean (clear=True) *)
-Theorem C13_refuted_fortran_module_reuse : exists h m file, Compatible h = true /\ FortranClean h = false /\
-  obs_of_fortran (run_hist h G0) m file <> obs_of_fortran G0 m file /\
-  obs_eqb (obs_of_fortran (run_hist h G0) m file) (obs_of_fortran G0 M0 file) = true.
-Proof.
-  exists [FCompile M0 "m" true], M1, "m". repeat split; try (vm_compute; reflexivity). apply obs_neq. vm_compute. reflexivity.
-Qed.
-Print Assumptions C13_refuted_fortran_module_reuse.
+(* D29 (before the repair D96; stated with the explicit switch value, so it holds whatever fixed_D29 is): after a cleared Fortran
+   compilation of M0 under the file name m every cache a compilation reads is clean, yet a Fortran compilation of M1 under the same
+   file name gets M0's compiled routine; with the repair the same sequence gives M1 its own routine *)
+Theorem C13_refuted_fortran_module_reuse_before_fix :
+  let g := fst (fstep_k false G0 M0 "m" true) in
+  clean g = true /\ fortran_clean g = false /\
+  obs_of_fortran_k false g M1 "m" <> obs_of_fortran_k false G0 M1 "m" /\
+  obs_eqb (obs_of_fortran_k false g M1 "m") (obs_of_fortran_k false G0 M0 "m") = true.
+Proof. cbv zeta. repeat split; try (vm_compute; reflexivity). apply obs_neq. vm_compute. reflexivity. Qed.
+Print Assumptions C13_refuted_fortran_module_reuse_before_fix.
 
-(* D19: a Fortran compilation after an uncleared default-backend one under the same file name raises ImportError *)
-Theorem C13_refuted_py_then_fortran_err : exists h m file, obs_of_fortran (run_hist h G0) m file = OErr "ImportError".
-Proof. exists [Compile M0 false false false], M1, "m". vm_compute. reflexivity. Qed.
-Print Assumptions C13_refuted_py_then_fortran_err.
+Theorem C13_fortran_module_reuse_fixed :
+  let g := fst (fstep_k true G0 M0 "m" true) in
+  fortran_clean g = false /\ obs_eqb (obs_of_fortran_k true g M1 "m") (obs_of_fortran_k true G0 M1 "m") = true.
+Proof. vm_compute. split; reflexivity. Qed.
+Print Assumptions C13_fortran_module_reuse_fixed.
+
+(* D19 (before D96): a Fortran compilation after an uncleared default-backend one under the same file name raises ImportError;
+   with the repair it compiles *)
+Theorem C13_refuted_py_then_fortran_err_before_fix : exists h m file,
+  obs_of_fortran_k false (run_hist h G0) m file = OErr "ImportError" /\ is_err (obs_of_fortran_k true (run_hist h G0) m file) = false.
+Proof. exists [Compile M0 false false false], M1, "m". vm_compute. split; reflexivity. Qed.
+Print Assumptions C13_refuted_py_then_fortran_err_before_fix.
 
 (* D28: from_yaml(p).update_var(...) mutates the cached template; circuit.clear()/clear=True do not cure it
    (NOTE, before D91: history-level witness for the switch value fixed_yaml_copy = false) *)
